@@ -12,6 +12,15 @@ pub fn str_slice<'a>(s: &'a str, a: usize, b: usize) -> (r: &'a str)
     ensures r.spec_bytes() == s.spec_bytes().subrange(a as int, b as int)
 { &s[a..b] }
 
+#[verifier::external_body]
+pub fn str_ends_with(s: &String, suffix: &str) -> (r: bool)
+    ensures r == (suffix@.len() <= s@.len() && s@.subrange(s@.len() - suffix@.len(), s@.len() as int) == suffix@)
+{ s.ends_with(suffix) }
+#[verifier::external_body]
+pub fn str_starts_with(s: &String, prefix: &str) -> (r: bool)
+    ensures r == (prefix@.len() <= s@.len() && s@.subrange(0, prefix@.len() as int) == prefix@)
+{ s.starts_with(prefix) }
+
 // canonical u32 parse of str::parse::<u32> (proved complete for 1-10 digit inputs by the Kani harness, see kani/)
 pub uninterp spec fn parse_u32_spec(b: Seq<u8>) -> Option<u32>;
 #[verifier::external_body]
